@@ -108,3 +108,11 @@ Theorem C01_upolynomial_pow_prefix_refuted :
   u_pow_mono_prefix (Some 4) 1 2 2 = [(2%nat, 0)] /\
   u_pow (Some 4) F (u_construct (Some 4) [0; 2]) 2 = Some [(0%nat, 0)].
 Proof. vm_compute. split; reflexivity. Qed.
+
+(* ---- 4. lp_upolynomial_construct_power(K, degree, c) of the pinned tree stores 0*x^degree when c is zero in K *)
+Definition u_construct_power_prefix (K : ring) (d : nat) (c : Z) : upoly := [(d, int_assign K c)].
+Theorem C01_upolynomial_construct_power_prefix_refuted :
+  u_degree (u_construct_power_prefix None 3 0) = 3%nat /\
+  u_degree (u_construct_power_prefix (Some 7) 4 14) = 4%nat /\
+  u_construct None (repeat 0 3 ++ [0]) = [(0%nat, 0)].
+Proof. vm_compute. repeat split; reflexivity. Qed.
